@@ -280,6 +280,15 @@ SeekFails(ev, sg, c) ==
 Ungated(c) == c.solo = -1 /\ \A i \in DOMAIN c.enabled : c.enabled[i]
 StripLog(L) == LET K == SelectSeq(L, LAMBDA x : x[1] \in {"e", "h"}) IN
                [i \in DOMAIN K |-> IF K[i][1] = "e" THEN <<"e", K[i][2], K[i][3], K[i][4], K[i][5], K[i][6]>> ELSE <<"h", K[i][2], K[i][3]>>]
+\* which channels differ after a seek, with the observed and the two expected views (detail of `controller-state`)
+SeekCtlDiff(ev, sg, c) ==
+  LET its == Gated(sg, sg.its, c.enabled, c.solo)
+      pre  == SelectSeq(its, LAMBDA it : it.t <= ev.us - SeekSlackUs)
+      amb  == SelectSeq(its, LAMBDA it : it.t > ev.us - SeekSlackUs /\ it.t <= ev.us + SeekSlackUs)
+      S0   == Init0([i \in 1..16 |-> i - 1], 12, 0, <<>>, 44100, FALSE, -1, 0)
+      exp  == FoldCtl(S0, pre \o amb, 1)
+      expLo == FoldCtl(S0, pre, 1)
+  IN { <<ch - 1, CtlView(ev.s.mc[ch]), CtlView(exp.mc[ch])>> : ch \in { q \in 1..16 : CtlView(ev.s.mc[q]) # CtlView(exp.mc[q]) /\ CtlView(ev.s.mc[q]) # CtlView(expLo.mc[q]) } }
 StepSeek(ev) ==
   LET f == SeekFails(ev, song, cfg)
       tgt == ev.tell
@@ -288,7 +297,8 @@ StepSeek(ev) ==
       doRef == IOEnv.SEQ_REFINE = "1" /\ Ungated(cfg) /\ ev.us >= 0 /\ ev.us # song.len /\ Len(ev.log) <= 150
       m == IF doRef THEN SeekModel(song, cfg.loopEn, cfg.loopN, ev.us, 500000 \div cfg.rate) ELSE [log |-> <<>>, tell |-> 0]
       dr == doRef /\ (m.tell # ev.tell \/ StripLog(m.log) # StripLog(SelectSeq(ev.log, LAMBDA x : x[1] = "e" \/ cfg.hooks)))
-  IN /\ fails' = AddFails(Tag("C08", f, ev, ToString(<<"target", ev.us, "len", song.len, "tell", ev.tell, "was", pos.t>>)))
+  IN /\ fails' = AddFails(Tag("C08", f, ev, ToString(<<"target", ev.us, "len", song.len, "tell", ev.tell, "was", pos.t>>)
+                                              \o (IF "controller-state" \in f THEN ToString(SeekCtlDiff(ev, song, cfg)) ELSE "")))
      /\ pos' = [t |-> tgt, moved |-> TRUE, stgt |-> IF ev.us >= 0 THEN ev.us ELSE -1]
      /\ drift' = IF dr /\ Len(drift) < 4 THEN Append(drift, [l |-> l, x |-> exec, e |-> "Seek",
                       d |-> ToString(<<"target", ev.us, "model-tell", m.tell, "real-tell", ev.tell, "model-log", Len(m.log), "real-log", Len(ev.log)>>)]) ELSE drift
